@@ -425,12 +425,13 @@ class Scaler:                    # an object that can be called (a fitted model,
 
 class MockValueKinds(Suite):
     """the value supplied for a mocked input may be anything - a function, a class, a functools.partial, an object with
-    __call__, a generator function, None, falsy values: the tested task receives that very object, as run argument and
-    through self.input_tasks, and nothing calls it.  Runtime check only."""
+    __call__, a generator function, None, falsy values, arrays, frames and series (whose == is element-wise), an object
+    that equals everything: the tested task receives that very object, as run argument and through self.input_tasks, and
+    nothing calls it.  Runtime check only."""
     name = 'mock_value_kinds'
     model = ''
     KINDS = ('function', 'lambda', 'class', 'partial', 'callable_object', 'generator_function', 'builtin', 'none', 'zero',
-             'empty_list', 'dict')
+             'empty_list', 'dict', 'array', 'empty_array', 'frame', 'series', 'mock_any', 'not_implemented')
 
     def gen(self, rng, tier):
         return [dict(kind=k, helper=h, by=b) for k in self.KINDS for h in ('create_test_task', 'TestChain') for b in ('class', 'name')]
@@ -457,7 +458,12 @@ class MockValueKinds(Suite):
             scaler = m.Scaler()
             value = {'function': fn, 'lambda': (lambda: calls.append('lambda') or 'lambda result'), 'class': m.Scaler,
                      'partial': functools.partial(fn, 1), 'callable_object': scaler, 'generator_function': genf, 'builtin': len,
-                     'none': None, 'zero': 0, 'empty_list': [], 'dict': {'a': 1}}[case['kind']]
+                     'none': None, 'zero': 0, 'empty_list': [], 'dict': {'a': 1},
+                     # values whose comparison with == does not give one truth value, or is true for everything
+                     'array': __import__('numpy').arange(6).reshape(2, 3), 'empty_array': __import__('numpy').zeros((0, 2)),
+                     'frame': __import__('pandas').DataFrame({'a': [1, 2], 'b': [3.5, None]}),
+                     'series': __import__('pandas').Series([1, 2, 3]), 'mock_any': __import__('unittest.mock').mock.ANY,
+                     'not_implemented': NotImplemented}[case['kind']]
             mocks = {(m.Upstream if case['by'] == 'class' else 'upstream'): value}
             if case['helper'] == 'create_test_task':
                 t = create_test_task(m.Consumer, input_tasks=mocks)
@@ -484,9 +490,97 @@ class MockValueKinds(Suite):
         return repr(case)
 
 
+SEQUENCE_SRC = """
+from taskchain import Task
+from taskchain.parameter import InputTaskParameter
+from taskchain.data import InMemoryData
+
+class LegacyScale(Task):
+    class Meta:
+        task_group = 'legacy'
+        name = 'scale'
+        data_class = InMemoryData
+    def run(self) -> int:
+        return 3
+
+class Consumer(Task):            # an optional input named by a short string
+    class Meta:
+        parameters = [InputTaskParameter('scale', default=1)]
+        data_class = InMemoryData
+    def run(self, scale) -> int:
+        return 10 * scale
+
+class Strict(Task):              # the same input, required
+    class Meta:
+        parameters = [InputTaskParameter('scale')]
+        data_class = InMemoryData
+    def run(self, scale) -> int:
+        return 100 * scale
+"""
+
+
+class HelperSequences(Suite):
+    """several helpers made one after the other in one process for the same task class, the input mocked under different
+    keys - the class of a grouped task, its full name, the short name the task declares, or not at all: each helper
+    yields what its own mocks say, whatever the earlier helpers were given.  Runtime check only."""
+    name = 'helper_sequences'
+    model = ''
+    KEYS = ('class', 'full', 'short', 'none')
+
+    def gen(self, rng, tier):
+        import itertools
+        return [dict(task=t, keys=list(ks), helper=h) for t in ('Consumer', 'Strict') for h in ('create_test_task', 'TestChain')
+                for ks in itertools.permutations(self.KEYS, 3) if not (t == 'Strict' and 'none' in ks)][:40] + \
+               [dict(task='Consumer', keys=['class', 'short', 'class', 'none', 'full'], helper='TestChain')]
+
+    def run_impl(self, case):
+        import sys, types
+        from taskchain.utils.testing import TestChain, create_test_task
+        name = 'tcv_sequences'
+        m = types.ModuleType(name)
+        sys.modules[name] = m
+        try:
+            exec(compile(SEQUENCE_SRC, name, 'exec'), m.__dict__)
+            for c in (m.LegacyScale, m.Consumer, m.Strict):
+                c.__module__ = name
+            cls = getattr(m, case['task'])
+            out = []
+            for i, k in enumerate(case['keys']):
+                value = 5 + i
+                mocks = {'class': {m.LegacyScale: value}, 'full': {'legacy:scale': value}, 'short': {'scale': value}, 'none': {}}[k]
+                try:
+                    if case['helper'] == 'create_test_task':
+                        t = create_test_task(cls, input_tasks=mocks)
+                    else:
+                        t = TestChain([cls], mock_tasks=mocks)[case['task'].lower()]
+                    out.append(['value', t.value])
+                except Exception as e:
+                    out.append(['error', f'{type(e).__name__}: {e}'[:120]])
+            return dict(results=out)
+        finally:
+            sys.modules.pop(name, None)
+
+    def oracle(self, case, obs):
+        if 'unexpected_exception' in obs:
+            return f'unexpected exception {obs["unexpected_exception"]}: {obs["text"]}'
+        factor = 10 if case['task'] == 'Consumer' else 100
+        for i, (k, r) in enumerate(zip(case['keys'], obs['results'])):
+            want = factor * (1 if k == 'none' else 5 + i)
+            if r != ['value', want]:
+                return (f'{case}: helper {i} (input mocked by {k}, value {5 + i}) yields {r}; with its own mocks the task computes {want} '
+                        f'(earlier helpers: {case["keys"][:i]})')
+        return None
+
+    def nontrivial(self, case, obs):
+        return True
+
+    def key(self, case):
+        return repr(case)
+
+
 class C19(Prop):
     pid = 'C19'
-    suites = [Helpers(), ParameterIdentity(), MockValueKinds()]
+    suites = [Helpers(), ParameterIdentity(), MockValueKinds(), HelperSequences()]
     assumptions = ['a fresh base_dir per helper (the helpers persist under the config name `test`)']
 
 
